@@ -27,6 +27,14 @@ def TimeBase.expand (n : Nat) : TimeBase → List Rat
 def integrate (rate : List Rat) (tb : TimeBase) : Option Rat :=
   if valid rate.length tb then some (dot rate (tb.expand rate.length)) else none
 
+/-- `integrate_data` as it takes a constant (after D87): a single value next to several intervals stands
+for that value over all of them; before, that input was an `IntegrationError` and the results dropped
+the energy, or counted the first interval only. -/
+def integrateC (rate : List Rat) (tb : TimeBase) : Option Rat :=
+  match rate, tb with
+  | [r], .series dts => if dts.length ≤ 1 then integrate rate tb else some (r * rsum dts)
+  | _, _ => integrate rate tb
+
 /-- running sums `cumsum(rate * dt)` -/
 def cumsum : Rat → List Rat → List Rat
   | _, [] => []
